@@ -14,7 +14,7 @@ CHECKS = {
 }
 
 CHECKS["C10"] = dict(
-    text="TLC exhaustively checks spec/CArc.tla (pool of CArc/CArcSome/opaque/Option/std-Arc handles over counted allocations, per-thread slot ownership, stored clone/drop function call counts) for all interleavings of 2 threads; every generated behaviour is replayed on real cglue::arc handles with each operation executed on the OS thread the spec names; -simulate behaviours of depth 40; random driver traces validated by TLC (Trace_CArc).",
+    text="TLC exhaustively checks spec/CArc.tla (pool of CArc/CArcSome/opaque/Option/std-Arc handles over counted allocations, per-thread slot ownership, stored clone/drop function call counts) for all interleavings of 2 threads; every generated behaviour is replayed on real cglue::arc handles with each operation executed on the OS thread the spec names; -simulate behaviours of depth 40; random driver traces validated by TLC (Trace_CArc); free-running mode: 3 OS threads operate concurrently on their own handles of shared allocations, TLC validates a completion-ordered linearisation and compares the whole observable state after the threads have joined.",
     note="Trusted: TLC, rt/src/arcad.rs projection (Arc::strong_count of a retained Arc, destructor counters, interposed clone_fn/drop_fn via the C layout). Interleaving granularity is one public operation.",
     technique="TLA+ spec + TLC exhaustive model check over thread interleavings; behaviour replay on real threads; trace validation by TLC",
     design="DESIGN.md §5 C10")
